@@ -500,6 +500,8 @@ def replay_metrics(inputs):
     T, N = int(rng.integers(12, 40)), int(rng.integers(2, 5))
     steps = rng.normal(scale=0.03, size=(T, N, 3))
     steps[0] = 0
+    if inputs.get('frozen', seed % 3 == 0) and N >= 2:
+        steps[:, 1 + seed % (N - 1)] = 0  # an atom that never moves, after at least one that does
     base = rng.random((N, 3))
     coords = base + np.cumsum(steps, axis=0)
     dt = 2e-15
@@ -515,7 +517,7 @@ def replay_metrics(inputs):
     dist = np.linalg.norm(cum @ lat.matrix, axis=-1).T
 
     def close(a, b, what, rtol=1e-9):
-        if not np.allclose(a, b, rtol=rtol, atol=0):
+        if not np.allclose(a, b, rtol=rtol, atol=0, equal_nan=True):  # the mean frequency of an atom that never moves is 0/0 in both representations
             bad.append(f'{what}: {a} != {b}')
     rho = N / (lat.volume * 1e-30)
     close(float(m.particle_density()), rho, 'particle_density')
@@ -534,6 +536,10 @@ def replay_metrics(inputs):
     close(m.speed(), np.diff(dist, prepend=0), 'speed')
     amps = m.amplitudes()
     close(amps.sum(), dist[:, -1].sum(), 'sum of amplitudes = sum of final distances', rtol=1e-8)
+    amps0, speed0 = np.array(amps, copy=True), np.array(m.speed(), copy=True)
+    m.vibration_amplitude(), m.attempt_frequency(), m.tracer_diffusivity(dimensions=3)
+    if not np.array_equal(np.asarray(m.amplitudes()), amps0) or not np.array_equal(np.asarray(m.speed()), speed0):
+        bad.append('amplitudes() / speed() of the same metrics object changed after other metrics were queried')
     # per atom: amplitudes are consecutive chunk sums of the speed row
     k, s = float(inputs.get('k', 1.7)), float(inputs.get('s', 3.0))
     m2 = mk(lat.matrix * k, dt).metrics()
